@@ -33,7 +33,7 @@ class RecBroker(AsyncBroker):
         tm.parse_labels()
         tidx = int(tm.task_name[1:]) if tm.task_name[1:].isdigit() else 0
         a = tm.args[0] if tm.args else 0
-        ok = tm.kwargs == {"p": a} and "schedule_id" in tm.labels and tm.labels.get("own") == f"L{tidx}"
+        ok = tm.kwargs == {"p": a} and "schedule_id" in tm.labels and tm.labels.get("own") == f"L{tidx}" and tm.labels.get("el") == a
         ev = dict(EV0)
         ev.update({"e": "kick", "task": tidx, "a": a if isinstance(a, int) else 0, "ok": bool(ok)})
         self.events.append(ev)
@@ -43,17 +43,22 @@ class RecBroker(AsyncBroker):
         yield b""  # pragma: no cover
 
 
+SPELL = [0]
 OFFSETS: List[Any] = [None, "Asia/Kathmandu", _dt.timedelta(hours=3)]
 
 
 def entry_dict(e: Dict[str, Any]) -> Dict[str, Any]:
-    d: Dict[str, Any] = {"args": [e["a"]], "kwargs": {"p": e["a"]}}
+    d: Dict[str, Any] = {"args": [e["a"]], "kwargs": {"p": e["a"]}, "labels": {"el": e["a"]}}     # labels of this entry only
     if e["k"] in ("cron", "both"):
         d["cron"] = "*/5 * * * *"
         if OFFSETS[e["a"] % 3] is not None:
             d["cron_offset"] = OFFSETS[e["a"] % 3]       # each entry has its own offset (or none)
     if e["k"] in ("time", "both"):
         d["time"] = BASE + _dt.timedelta(hours=e["t"])
+        if SPELL[0] == 1:          # all times of a scenario are spelled alike: naive, aware UTC, or aware on a +02:00 clock
+            d["time"] = d["time"].replace(tzinfo=_dt.timezone.utc)
+        elif SPELL[0] == 2:
+            d["time"] = d["time"].replace(tzinfo=_dt.timezone.utc).astimezone(_dt.timezone(_dt.timedelta(hours=2)))
     if e["k"] == "invalid":
         d["crom"] = "* * * * *"
     return d
@@ -68,13 +73,15 @@ def kind_of(st: Any) -> str:
 def tid_of(st: Any) -> int:
     if st.time is None:
         return 0
-    return int(round((st.time.replace(tzinfo=None) - BASE).total_seconds() / 3600))
+    t = st.time if st.time.tzinfo is None else st.time.astimezone(_dt.timezone.utc).replace(tzinfo=None)
+    return int(round((t - BASE).total_seconds() / 3600))
 
 
 def run(scn: Dict[str, Any]) -> List[Dict[str, Any]]:
     cfg = scn["cfg"]
     events: List[Dict[str, Any]] = []
     shared_names: List[str] = []
+    SPELL[0] = (len(scn["ops"]) + sum(len(t["entries"]) for t in cfg["tasks"])) % 3
     loop = VLoop()
     try:
         own = RecBroker(events)
@@ -94,6 +101,14 @@ def run(scn: Dict[str, Any]) -> List[Dict[str, Any]]:
                 shared_names.append(f"t{i}")
                 continue
             b.register_task(fn, task_name=f"t{i}", schedule=[entry_dict(e) for e in t["entries"]], own=f"L{i}")
+        if len(cfg["tasks"]) % 2 == 0 and cfg["tasks"] and cfg["tasks"][0].get("own", True):
+            # a shared task that happens to have the same name as own task t1: the broker's own task wins
+            from taskiq.brokers.shared_broker import AsyncSharedBroker
+
+            async def shadow(*a: Any, **k: Any) -> None:
+                return None
+            AsyncSharedBroker().register_task(shadow, task_name="t1", schedule=[{"cron": "1 1 1 1 1", "args": [77]}])
+            shared_names.append("t1")
         # the source's broker must see all tasks: merge registries as a shared global registry would
         own.local_task_registry.update({k: v for k, v in other.local_task_registry.items()})
         src = LabelScheduleSource(own)
@@ -107,6 +122,9 @@ def run(scn: Dict[str, Any]) -> List[Dict[str, Any]]:
             # an entry listed with another entry's (or no) offset is not the declared entry
             if s.cron and isinstance(a, int) and s.cron_offset != OFFSETS[a % 3]:
                 return 0
+            task = own.find_task(s.task_name)
+            if task is not None and ("el" in task.labels or s.labels.get("el") != a):
+                return 0          # an entry's labels leaked into the task's declared labels, or are not this entry's
             return a
 
         def view(sts: List[Any]) -> List[Dict[str, Any]]:
